@@ -309,6 +309,9 @@ func (e *Env) sel(v *Val, name string) *Val {
 
 func (e *Env) index(b, i *Val) *Val {
 	vc := e.vc
+	if b.Srt != "" && strings.HasPrefix(b.Srt, "(Array") {
+		return &Val{T: b.ElemT, Srt: b.ElemSrt, S: "(select " + b.S + " " + i.S + ")"}
+	}
 	if deref(b.T) != nil {
 		b = e.derefIfPtr(b)
 	}
@@ -559,6 +562,67 @@ func (e *Env) call(n *SCall) *Val {
 		return e.visited("", n)
 	case "inst":
 		return &Val{T: tInt, S: "(tinst " + arg(0).S + ")"}
+	case "zero":
+		tl, ok := n.Args[0].(*STypeLit)
+		if !ok {
+			return e.fail("zero(type[T])")
+		}
+		t, err := e.resolveType(tl.Type)
+		if err != nil {
+			return e.fail("%v", err)
+		}
+		return &Val{T: t, S: vc.u.zero(t)}
+	case "sameMap":
+		// the map referenced by m (now) has the same contents as at entry
+		if !need(1) {
+			return e.fail("")
+		}
+		if e.old == nil {
+			return e.fail("sameMap() needs an entry state")
+		}
+		m := arg(0)
+		if deref(m.T) != nil {
+			m = e.derefIfPtr(m)
+		}
+		mt, ok := types.Unalias(m.T).Underlying().(*types.Map)
+		if !ok {
+			return e.fail("sameMap of non-map")
+		}
+		_, d1, v1, _ := vc.mapArrays(e.st, mt)
+		_, d0, v0, _ := vc.mapArrays(e.old, mt)
+		ks := vc.u.sortOf(mt.Key())
+		qn := fmt.Sprintf("q_sm_%d", e.depth)
+		return &Val{T: tBool, S: fmt.Sprintf("(or (= %s 0) (and (= (select %s %s) (select %s %s)) (forall ((%s %s)) (! (=> (select (select %s %s) %s) (= (select (select %s %s) %s) (select (select %s %s) %s))) :pattern ((select (select %s %s) %s))))))",
+			m.S, d1, m.S, d0, m.S, qn, ks, d1, m.S, qn, v1, m.S, qn, v0, m.S, qn, v1, m.S, qn)}
+	case "othersSame":
+		// every map of m's type other than m itself is unchanged since loop entry
+		// (inside invariants) or function entry (elsewhere)
+		if !need(1) {
+			return e.fail("")
+		}
+		since := e.pre
+		if since == nil {
+			since = e.old
+		}
+		if since == nil {
+			return e.fail("othersSame() needs an earlier state")
+		}
+		m := arg(0)
+		if deref(m.T) != nil {
+			m = e.derefIfPtr(m)
+		}
+		mt, ok := types.Unalias(m.T).Underlying().(*types.Map)
+		if !ok {
+			return e.fail("othersSame of non-map")
+		}
+		_, d1, v1, c1 := vc.mapArrays(e.st, mt)
+		_, d0, v0, c0 := vc.mapArrays(since, mt)
+		if d1 == d0 && v1 == v0 {
+			return &Val{T: tBool, S: "true"}
+		}
+		qn := fmt.Sprintf("q_os_%d", e.depth)
+		return &Val{T: tBool, S: fmt.Sprintf("(forall ((%s Int)) (! (=> (not (= %s %s)) (and (= (select %s %s) (select %s %s)) (= (select %s %s) (select %s %s)) (= (select %s %s) (select %s %s)))) :pattern ((select %s %s)) :pattern ((select %s %s))))",
+			qn, qn, m.S, d1, qn, d0, qn, v1, qn, v0, qn, c1, qn, c0, qn, d1, qn, v1, qn)}
 	case "mapdom":
 		// mapdom(m) : the key set of m as an array
 		m := arg(0)
